@@ -629,8 +629,22 @@ func (sc *Scope) lemmaInstance(e *SExpr, lm *Lemma) Term {
 		sc.ex.needPrelude(p)
 	}
 	inner := &Scope{ex: sc.ex, names: map[string]Val{}, st: sc.st, bound: map[string]Term{}}
+	var transfer []Term
 	for i, p := range lm.Params {
 		s := vc.sortByName(p.Sort)
+		if s.Kind == KBV && vc.Mode != "bv" {
+			// a lemma proved over w-bit vectors, used over mathematical integers: sound for arguments inside
+			// [0, 2^w) as long as the statement uses only operations that agree there (+, *, <=, ==, / and % by
+			// constants, >> by constants) and no intermediate value wraps; the range is made a premise
+			t := sc.evalWant(e.Args[i], SInt)
+			if t.Sort.Kind != KInt {
+				sc.errorf(e, "lemma argument %d has sort %s, want an integer", i+1, t.Sort)
+			}
+			transfer = append(transfer, leT(IntLit64(0, SInt), t), ltT(t, IntLit(new(big.Int).Lsh(big.NewInt(1), uint(s.Width)), SInt)))
+			inner.bound[p.Name] = t
+			vc.assumeNote(fmt.Sprintf("lemma %s.%s is proved over %d-bit vectors and used over mathematical integers within [0, 2^%d) (bit-vector/integer transfer)", lm.Pkg, lm.Name, s.Width, s.Width))
+			continue
+		}
 		t := sc.evalWant(e.Args[i], s)
 		if !sameSort(t.Sort, s) {
 			sc.errorf(e, "lemma argument %d has sort %s, want %s", i+1, t.Sort, s)
@@ -645,7 +659,7 @@ func (sc *Scope) lemmaInstance(e *SExpr, lm *Lemma) Term {
 		post = append(post, inner.evalBool(r.Expr))
 	}
 	sc.ex.usedLemma(lm)
-	return Implies(And(pre...), And(post...))
+	return Implies(And(append(transfer, pre...)...), And(post...))
 }
 
 // ---- sorts by name, preludes ----
